@@ -89,6 +89,8 @@ func c15(c *Ctx) {
 	r := c.R
 	r.Explain = "C15 (directory nodes satisfy the map-node contract): decides structural agreement between the operations of each name-addressable node type — (M1) LookupByNode and LookupBySegment return, unmodified, the result of the same type's LookupByString on key.AsString() / seg.String(), and the native Lookup hands the key to the same primitive(s) as LookupByString; (M2) Length() returns the length of the very links list the iterators are created over and the list-iterator wrappers forward Next/Done unmodified; (M3) iterators and the lookup primitive map an absent link name to the constant \"\"; (M4) in the sharded directory, length, iteration and lookup classify links with the same predicate and descend through the same loader; (M5) the map iterator reports ErrIteratorOverread past the end. Not decided: the quantified equalities themselves (they also depend on go-codec-dagpb's list semantics)."
 	r.Rule("M1", "entry-point agreement per map ADL type: LookupByNode/LookupBySegment forward LookupByString(key.AsString()/seg.String()) unmodified; native Lookup passes key.String() to the same primitive functions as LookupByString")
+	r.Rule("M6", "the list-scanning lookup primitive leaves its links loop only when the iterator is exhausted or on the edge where the key equals the link's name: it never stops early on an ordering assumption (link lists may arrive in any order)")
+	r.Rule("M7", "every lookup entry point of the sharded directory hands the descent a hash cursor allocated in that very call (the cursor is stateful: it may be passed down the recursion but never reused across calls)")
 	r.Rule("M2", "Length() returns Length() of the links list at the same access path the iterators are created from (or the result of the walk function for sharded directories); list-iterator wrappers return the wrapped iterator's Next/Done results unmodified")
 	r.Rule("M3", "every function that tests a link's Name for existence uses the constant \"\" on the absent branch")
 	r.Rule("M4", "sharded directory: every function that calls the shard loader classifies the link with the link predicate first, and all of them use the same loader and the same predicate")
@@ -192,6 +194,8 @@ func c15(c *Ctx) {
 	}
 	r.Floor("M1", n1, 9)
 
+	c.checkFullScan(ts)
+	c.checkFreshHashCursor(ts)
 	c.checkLengthSource(ts)
 	c.checkAbsentName()
 	c.checkShardedAgreement()
@@ -524,4 +528,143 @@ func assignsEmptyString(call *ssa.Call) bool {
 	}
 	k, ok := call.Call.Args[0].(*ssa.Const)
 	return ok && k.Value != nil && k.Value.Kind() == constant.String && constant.StringVal(k.Value) == ""
+}
+
+// checkFullScan implements M6 on every repository function that the plain map types' LookupByString hands the key to
+// and that loops over a links iterator.
+func (c *Ctx) checkFullScan(ts []*types.Named) {
+	r := c.R
+	prims := map[*ssa.Function]bool{}
+	for _, t := range ts {
+		if m := c.methodOf(t, "LookupByString"); m != nil && len(m.Params) > 1 {
+			for f := range c.keyConsumers(m, m.Params[1]) {
+				prims[f] = true
+			}
+		}
+	}
+	n := 0
+	for _, fn := range core.SortedFuncs(prims) {
+		// the links loop: header with Done() of an iterator
+		for _, h := range fn.Blocks {
+			isHeader := false
+			for _, p := range h.Preds {
+				if h.Dominates(p) {
+					isHeader = true
+				}
+			}
+			iff := core.BlockIf(h)
+			if !isHeader || iff == nil {
+				continue
+			}
+			cond := iff.Cond
+			neg := false
+			if u, ok := cond.(*ssa.UnOp); ok && u.Op == token.NOT {
+				cond, neg = u.X, true
+			}
+			call, ok := cond.(*ssa.Call)
+			if !ok {
+				continue
+			}
+			if name, _ := methodCall(call); name != "Done" {
+				continue
+			}
+			n++
+			key := core.FuncName(fn) + "/full-scan"
+			exitIdx := 0
+			if neg {
+				exitIdx = 1
+			}
+			inLoop := map[*ssa.BasicBlock]bool{}
+			for _, b := range fn.Blocks {
+				if h.Dominates(b) && (b == h || blockReaches(b, h)) {
+					inLoop[b] = true
+				}
+			}
+			// the key: a string parameter
+			var keyP ssa.Value
+			for _, p := range fn.Params {
+				if isBasic(p.Type(), types.String) {
+					keyP = p
+				}
+			}
+			var bad []string
+			for b := range inLoop {
+				for si, s2 := range b.Succs {
+					if inLoop[s2] || (b == h && si == exitIdx) {
+						continue
+					}
+					// leaving the loop early: must be the true edge of key == name
+					iff2 := core.BlockIf(b)
+					okExit := false
+					if iff2 != nil && si == 0 {
+						if bo, ok := iff2.Cond.(*ssa.BinOp); ok && bo.Op == token.EQL && (bo.X == keyP || bo.Y == keyP) {
+							okExit = true
+						}
+					}
+					if iff2 != nil && si == 1 {
+						if bo, ok := iff2.Cond.(*ssa.BinOp); ok && bo.Op == token.NEQ && (bo.X == keyP || bo.Y == keyP) {
+							okExit = true
+						}
+					}
+					if !okExit {
+						bad = append(bad, fmt.Sprintf("the scan can stop at %s on a condition other than key == name", c.P.Pos(firstPos(s2))))
+					}
+				}
+			}
+			r.Check(len(bad) == 0, "M6", key, c.P.Pos(fn.Pos()), "the links are scanned to the end unless the key matches", uniqJoin(bad))
+		}
+	}
+	r.Floor("M6", n, 1)
+}
+
+// statefulCursorPtr: pointer to a repository struct type that has a Next method (a cursor that advances).
+func (c *Ctx) statefulCursorPtr(t types.Type) bool {
+	pt, ok := t.Underlying().(*types.Pointer)
+	if !ok {
+		return false
+	}
+	n, ok := types.Unalias(pt.Elem()).(*types.Named)
+	if !ok || n.Obj().Pkg() == nil || !c.P.IsRepoPkg(n.Obj().Pkg()) {
+		return false
+	}
+	ms := types.NewMethodSet(t)
+	for i := 0; i < ms.Len(); i++ {
+		if ms.At(i).Obj().Name() == "Next" {
+			return true
+		}
+	}
+	return false
+}
+
+// checkFreshHashCursor implements M7.
+func (c *Ctx) checkFreshHashCursor(ts []*types.Named) {
+	r := c.R
+	n := 0
+	for _, t := range ts {
+		for _, mname := range []string{"LookupByString", "Lookup"} {
+			m := c.methodOf(t, mname)
+			if m == nil || len(m.Blocks) == 0 {
+				continue
+			}
+			for _, ci := range core.CallsIn(m) {
+				f := ci.Common().StaticCallee()
+				if f == nil {
+					continue
+				}
+				if _, isRepo := c.P.PkgOf(f); !isRepo {
+					continue
+				}
+				for _, a := range ci.Common().Args {
+					if !c.statefulCursorPtr(a.Type()) {
+						continue
+					}
+					n++
+					key := core.TypeNameOf(t) + "/" + mname + "/fresh-hash-cursor"
+					al, fresh := a.(*ssa.Alloc)
+					r.Check(fresh && al.Parent() == m, "M7", key, c.P.Pos(ci.Pos()), "the hash cursor handed to "+f.Name()+" is allocated in this call", "the stateful hash cursor handed to "+f.Name()+" is not allocated in this call (a reused cursor resumes mid-hash and lands in the wrong bucket)")
+				}
+			}
+		}
+	}
+	r.Floor("M7", n, 2)
 }
